@@ -14,7 +14,8 @@ import vlib
 SW = "PurgeByHost = %s SendTopology = %s CheckDuplicate = %s Rogue = TRUE"
 
 KINDS = {"KMem": {"A": ["p"], "G1": ["p", "q"], "G2": ["q"], "G3": []},
-         "KAct": {"A": ["p"], "B": ["p", "q"], "C": []}, "KAct0": {"A": ["p"], "B": [], "C": []}}
+         "KAct": {"A": ["p"], "B": ["p", "q"], "C": []}, "KAct0": {"A": ["p"], "B": [], "C": []},
+         "KActPP": {"A": ["p"], "B": ["p"], "C": []}}
 SETS = {"N1": ["A"], "N2": ["A", "B"], "N3": ["A", "B", "C"], "G3": ["G1", "G2", "G3"], "G2": ["G1", "G2"], "NoGhosts": [],
         "KP": ["p"], "KPQ": ["p", "q"], "KPQR": ["p", "q", "r"], "I1": ["1"], "I2": ["1", "2"], "IB": ["bulk"], "IS": ["1", "x/1"], "S0": [], "S1": ["x"],
         "UpA": ["A"], "UpAB": ["A", "B"], "UpABC": ["A", "B", "C"]}
@@ -37,12 +38,14 @@ INST = {
     # a member that registered no kind at all still hosts cluster-spawned actors
     # the id "bulk" stands for a block of BULK actors (more than one batch of anything): large topologies at a join
     "act_3nodes_bulk": inst("N3", "NoGhosts", "KAct", "KP", "IB", "S0", "UpAB", 3, "activation"),
+    # one id activated, deactivated, activated on the other member, then the first host leaves
+    "act_2nodes_reactivate": inst("N2", "NoGhosts", "KActPP", "KP", "I1", "S0", "UpAB", 4, "activation"),
     # an id may contain the separator itself
     "act_2nodes_slash": inst("N2", "NoGhosts", "KAct", "KP", "IS", "S0", "UpAB", 3, "activation"),
     "act_2nodes_kindless": inst("N2", "NoGhosts", "KAct0", "KP", "I1", "S1", "UpAB", 3, "activation"),
 }
 PLAN = {"C18": {"quick": ["mem_3ghosts_ops3"], "thorough": ["mem_3ghosts_ops4"]},
-        "C19": {"quick": ["act_2nodes_ops4", "act_3nodes_ops3", "act_2nodes_kindless", "act_2nodes_slash", "act_3nodes_bulk"],
+        "C19": {"quick": ["act_2nodes_ops4", "act_3nodes_ops3", "act_2nodes_kindless", "act_2nodes_reactivate", "act_2nodes_slash", "act_3nodes_bulk"],
                 "thorough": ["act_2nodes_ops5", "act_3nodes_ops4", "act_2nodes_kindless", "act_2nodes_slash", "act_3nodes_bulk"]}}
 REGRESSION = {"C18": [], "C19": [((False, True, True), {"C19_Agreement"}), ((True, False, True), {"C19_Agreement"}), ((True, True, False), {"C19_Unique", "C19_Agreement"})]}
 
